@@ -27,6 +27,7 @@ type ForeignParams struct {
 	Pad    string `json:"pad,omitempty"`    // EC scalar: fixed | stripped | extra
 	Sig    string `json:"sig,omitempty"`    // signature algorithm name; default SHA-256 of the signer's family
 	AltDN  bool   `json:"altDN,omitempty"`  // the certificate's subject text differs from the config's subject
+	Point  string `json:"point,omitempty"`  // EC public key in the certificate: "" uncompressed | compressed (NIST curves only)
 	Odd    string `json:"odd,omitempty"`    // structurally valid but unusual certificate/request (see oddKinds)
 }
 
@@ -83,6 +84,21 @@ func ecPointBytes(curve elliptic.Curve, x, y *big.Int) []byte {
 	x.FillBytes(out[1 : 1+bl])
 	y.FillBytes(out[1+bl:])
 	return out
+}
+
+func (k *genKeyT) spkiForm(point string) []byte {
+	if k.fam == "ec" && point == "compressed" && isNISTCurve(k.curve) {
+		return derSeq(derSeq(derOIDBytes(oidECPub), derOIDBytes(k.curve)), derBitString(elliptic.MarshalCompressed(k.ec.Curve, k.ec.X, k.ec.Y)))
+	}
+	return k.spki()
+}
+
+func isNISTCurve(oid string) bool {
+	switch oid {
+	case "1.3.132.0.33", "1.2.840.10045.3.1.7", "1.3.132.0.34", "1.3.132.0.35":
+		return true
+	}
+	return false
 }
 
 func (k *genKeyT) spki() []byte {
@@ -352,7 +368,7 @@ func buildForeignArtifact(w *World, e *EntitySpec, arg string) ([]byte, error) {
 		if p.Odd != "" {
 			der, err = buildOddCert(p.Odd, subj, k, signer, fam, now)
 		} else {
-			der, err = buildCert(subj, issuerDN, k.spki(), signer, fam, p.Sig, now.AddDate(-1, 0, 0), now.AddDate(60, 0, 0), 4711, nil)
+			der, err = buildCert(subj, issuerDN, k.spkiForm(p.Point), signer, fam, p.Sig, now.AddDate(-1, 0, 0), now.AddDate(60, 0, 0), 4711, nil)
 		}
 		if err != nil {
 			return nil, err
